@@ -1469,6 +1469,7 @@ where
         }
         let mut events = Vec::new();
         let rc = packet.return_code();
+        let session_present = packet.session_present();
         events.push(GenericEvent::RequestSendPacket {
             packet: packet.into(),
             release_packet_id_if_send_error: None,
@@ -1481,7 +1482,12 @@ where
         }
 
         self.status = ConnectionStatus::Connected;
-        events.extend(self.send_stored());
+        if session_present {
+            events.extend(self.send_stored());
+        } else {
+            // Session not present: nothing of an earlier session may be retransmitted
+            self.clear_store_related();
+        }
         self.send_post_process(&mut events);
 
         events
@@ -1501,6 +1507,7 @@ where
 
         let mut events = Vec::new();
         let rc = packet.reason_code();
+        let session_present = packet.session_present();
         if rc == ConnectReasonCode::Success {
             // Process properties
             for prop in packet.props() {
@@ -1556,7 +1563,12 @@ where
 
         self.status = ConnectionStatus::Connected;
 
-        events.extend(self.send_stored());
+        if session_present {
+            events.extend(self.send_stored());
+        } else {
+            // Session not present: nothing of an earlier session may be retransmitted
+            self.clear_store_related();
+        }
         self.send_post_process(&mut events);
 
         events
